@@ -273,6 +273,18 @@ def var_form(case, prob):
     return form
 
 
+def _layout(case, form, kind, size):
+    """(rows, cols, 'F' | 'T') for two in five cases with a plain array Signal whose size factorises, else None. Derived
+    from the drawn payload seed (not an extra draw, so the generated stream of all other choices is unchanged)."""
+    if form != "signals" or kind != "arr":
+        return None
+    how = [None, None, None, "F", "T"][case["payload_seed"] % 5]
+    if how is None:
+        return None
+    r = next((d for d in (2, 3, 4, 5) if size % d == 0 and size // d >= 2), None)
+    return None if r is None else (r, size // r, how)
+
+
 def run_oc(case, prob, log):
     M = _modules()
     pym = M["pym"]
@@ -294,6 +306,12 @@ def run_oc(case, prob, log):
         state = float(v[0]) if kind == "pyfloat" else (np.float64(v[0]) if kind == "npfloat" else np.array(v))
         if i in prob.get("int_sigs", ()):
             state = int(v[0]) if kind == "pyfloat" else (np.int64(v[0]) if kind == "npfloat" else np.array(v).astype(int))
+        lay = _layout(case, form, kind, len(v))
+        if lay is not None:
+            # a design held as a 2-D field (rows x columns) in Fortran order or as a transposed view: the design vector
+            # is its row-major (logical) flattening whatever the memory layout; minimize_oc writes flat states back
+            r, ccols, how = lay
+            state = np.asfortranarray(state.reshape(r, ccols)) if how == "F" else np.ascontiguousarray(state.reshape(r, ccols).T).T
         if form == "slices":
             variables.append(base[int(cum[i]):int(cum[i + 1])])
         elif form == "fancy":
@@ -418,6 +436,8 @@ def check_case(case, _debug=None):
               f"l1l2tol:{case['l1l2tol']}", f"gexp:{case['gexp']}"]
     labels.append("bounds:" + case.get("bound_type", "float"))
     labels.append("variables:" + var_form(case, prob))
+    if any(_layout(case, var_form(case, prob), kd, sz) for kd, sz in zip(prob["kinds"], prob["sizes"])):
+        labels.append("layout:2d_non_c_contiguous")
     if prob.get("int_sigs"):
         labels.append("integer_initial_state" + ("_mixed_with_float" if len(prob["int_sigs"]) < len(prob["sizes"]) else ""))
     if case.get("pre_sens"):
